@@ -949,14 +949,22 @@ pub proof fn lemma_c14_el_ren(wf: Seq<Factor>, a: Run, lm: bool, we: WeightedEne
         assert(1real * f1 == f1) by(nonlinear_arith);
         assert(we_exp_nepus_a(wf, el, exp).ren == nn * f1) by { if nn == 0real { lemma_mul0(f1); } }
         assert(we_exp_grid_a(wf, el, exp).ren == rr * f1) by { if rr == 0real { lemma_mul0(f1); } }
-        assert(nn * f1 + rr * f1 == en * f1) by(nonlinear_arith) requires en == nn + rr;
+        lemma_pd2(nn, rr, f1);
+        assert(nn * f1 + rr * f1 == en * f1);
         let eab = we_exp_ab(wf, el, exp);
         lemma_mul0(eab.ren);
         assert(we_exp(wf, el, exp, 0real).ren == en * f1);
         xa = en * f1;
     }
     assert(rv(we.b.ren) == gr * fg + ons * f1 + cg * fg - xa);
-    assert(gr * fg + ons * f1 + cg * fg - en * f1 == fg * (us + cg) + (f1 - fg) * uu) by(nonlinear_arith) requires us == gr + uu, ons == en + uu;
+    // gr fg + ons f1 + cg fg - en f1 == fg (us + cg) + (f1 - fg) uu   with us = gr + uu, ons = en + uu: one product at a time
+    lemma_pd2(en, uu, f1);                 // (en + uu) f1 = en f1 + uu f1
+    lemma_dist2(fg, gr, uu);               // fg (gr + uu) = fg gr + fg uu
+    lemma_dist2(fg, us, cg);               // fg (us + cg) = fg us + fg cg
+    lemma_pd2(f1, 0real - fg, uu);         // (f1 - fg) uu = f1 uu + (-fg) uu
+    lemma_pneg(fg, uu); lemma_pneg(gr, fg); lemma_pneg(cg, fg); lemma_pneg(uu, f1);
+    assert(f1 + (0real - fg) == f1 - fg);
+    assert(gr * fg + ons * f1 + cg * fg - en * f1 == fg * (us + cg) + (f1 - fg) * uu);
 }
 pub proof fn lemma_rer_mono(ren: real, nren: real, ren2: real, nren2: real)
     requires 0real <= ren <= ren2, 0real <= nren2 <= nren,
